@@ -8,6 +8,10 @@ ids = [p["id"] for p in props]
 
 # id -> (engine, technique, level text, level note, design ref)
 CHECKS = {
+ "C09": ("E2", "stateless model checking of the real validators under a cooperative scheduler: preemption-bounded DFS over all interleavings at statement granularity (points woven in mechanically), results compared with isolated runs",
+         "11 scenarios of 2-3 calls (one closure, two closures over one Options, family+default closures, preset endorsement, shared getter, sequential reuse, closure + plain verify sharing Options, SevValidate with shared options) are explored for every schedule with at most 2 (quick) / 3 (thorough) preemptions, with a scheduling point before every statement of verify/verify.go and gcetcbendorsement/sevvalidate.go; every call must return its isolated result. Thorough adds a separate free-running -race pass.",
+         "Trusted: interleaving at statement granularity (sub-statement memory-model effects only via the -race pass); go-sev-guest validate is not instrumented (it holds no state shared between calls); schedules with more preemptions than the bound are not explored.",
+         "DESIGN.md#c09"),
  "C01": ("E5", "bounded-exhaustive deviation lattice over a genuine endorsement (all signature bits, payload bits, structural signature/certificate/root/time deviations) on every verification entry point, against an independent crypto/rsa+crypto/x509 reference",
          "Every single-bit corruption of the signature, strided (quick) or every (thorough) bit of the payload and of the serialized container, 27 structural re-signings and swaps, 6 root sets and 6 verification times are run through 14 entry points (library, validator closures in all three endorsement-supply modes, SevValidate x3, TdxValidate, signer-side verify, and the verify / sev validate / tdx validate CLI in-process); acceptance must imply authenticity under the reference verifier.",
          "Trusted: crypto/rsa and crypto/x509 as reference; forgeries outside the enumerated deviation classes rest on the cryptographic assumption; CLI paths need the overlay export of the backend key.",
